@@ -35,8 +35,28 @@ def downFrom (m : View) (out : List Res) : View := out.foldl applyRes m
 def applyKV (m : View) (kv : KV) : View := fun k =>
   if kv.key = k then (if kv.del then none else some kv.rev) else m k
 
-/-- The update processor as a function (mode 0 = none). -/
-def convert (mode : Nat) (kv : KV) : List KV := if mode = 0 then [kv] else (conv1 kv).1
+/-- What a processor `p`, in private state `st`, converts the raw KVs `kvs` to (processing them in order, the state
+evolving) — `st = []` is a FRESH processor (just after `OnSyncerStarting`). -/
+def convSeq (p : Option Proc) : PState → List KV → List KV
+  | _, [] => []
+  | st, kv :: r => (procRun p st kv).2.1 ++ convSeq p (procRun p st kv).1 r
+
+/-- The processor's state after processing `kvs` from state `st`. -/
+def convState (p : Option Proc) : PState → List KV → PState
+  | st, [] => st
+  | st, kv :: r => convState p (procRun p st kv).1 r
+
+theorem convSeq_append (p : Option Proc) (st : PState) (a b : List KV) :
+    convSeq p st (a ++ b) = convSeq p st a ++ convSeq p (convState p st a) b := by
+  induction a generalizing st with
+  | nil => rfl
+  | cons x xs ih => simp [convSeq, convState, ih, List.append_assoc]
+
+theorem convState_append (p : Option Proc) (st : PState) (a b : List KV) :
+    convState p st (a ++ b) = convState p (convState p st a) b := by
+  induction a generalizing st with
+  | nil => rfl
+  | cons x xs ih => simp [convState, ih]
 
 /-- The status a consumer of the stream has last been told (starting from `st`). -/
 def lastStatus : Nat → List Res → Nat
